@@ -394,6 +394,10 @@ def gopherplus_blocks(chk: Check, sc: Scratch) -> None:
         # HTML titles that spell line breaks and block headers as character references
         titles = ["Hello&#13;&#10;+ADMIN:&#13;&#10; Admin: Mallory &lt;m@evil&gt;", "A&NewLine;+INFO: 1x&Tab;/y&Tab;h.example&Tab;70",
                   "B&#10;+VIEWS:&#10; text/evil: &lt;9k&gt;", "C&#x0d;&#x0a;+FAKE: x", "plain title"]
+        # file names that hold line breaks followed by what would be a block header or an item (a name is content too)
+        hostile_names = ["n\r\n+ADMIN:\r\n Admin: Mallory", "o\n+VIEWS:\n text/evil: <9k>.txt", "p\r+FAKE: x", "q\r\n+INFO: 1fake",
+                         "r\n1forged item", "s \r\n.\r\n"]
+        t.file("d/" + hostile_names[i % len(hostile_names)], "x\n")
         tfile = "t%d.html" % i
         t.file("d/" + tfile, "<html><head><title>%s</title></head><body>x</body></html>" % titles[i % len(titles)])
         names.append(tfile)
